@@ -166,6 +166,7 @@ func (d *dispatcher) RemoveHTTPCache(key []byte) {
 	lru.mu.Lock()
 	defer lru.mu.Unlock()
 	lru.removeCache(key)
+	verifPoint("purge.removed")
 	if d.store != nil {
 		err := d.store.Delete(key)
 		if err != nil {
